@@ -6,11 +6,12 @@ builders are not modelled):
     ∀ program p, ∀ configurations k₁ k₂ ∈ {prune on/off} × {multiplier
     threshold} × {Yao, GMW}, ∀ input x,
       (compile p k₁).compute x = (compile p k₂).compute x.
-It is FALSE on the current tree for the target axis (`C09_target_equivalence_fails`
-below; the GMW-target Goldschmidt divider is inexact and differs from the
-Yao-target long divider.  Two further divider defects found by this check –
-undriven result wires, operand-width panic – were fixed in /repo by 90ed06e
-and dcb521a).
+On the current tree the only difference found between configurations is the
+value of a division by ZERO under the two targets (`C09_target_equivalence_fails`
+below), which is outside the defined meaning of a program.  Three divider
+defects of the GMW target found by this check – undriven result wires,
+operand-width panic, inexact quotient for non-zero divisors – were fixed in
+/repo by 90ed06e, dcb521a and 776d360.
 
 What is proved (level: translation validation):
 * `C09_options_preserve_meaning_partial` / `C09_checker_sound`: the
@@ -290,7 +291,7 @@ theorem C09_pipeline_preserves (G G1 G3 : Graph) (gmw : Bool) (Coff Con : Circui
 
 /-! ### The target axis of the full statement is false on the pinned tree -/
 
-/-- `func main(a, b uint2) uint2 { return a / b }` compiled by the real compiler (repo HEAD b8285b2) for the
+/-- `func main(a, b uint2) uint2 { return a / b }` compiled by the real compiler (repo HEAD f07ee15) for the
 Yao target, pruning on (restoring long divider).
 line format: `25 4 2 i0.0.4;a0.4.5;x0.4.6;n1.5.7;n0.5.8;n2.7.9;a7.2.10;a8.2.11;x9.1.12;n5.10.13;x3.10.14;x3.11.15;a13.14.16;x16.10.17;a12.17.18;x17.6.24;x18.9.19;n19.11.20;a20.15.21;x21.11.22;x22.6.23` -/
 def witnessYao : Circuit :=
@@ -303,9 +304,9 @@ def witnessYao : Circuit :=
       ⟨.xor, 22, 6, 23⟩] }
 
 /-- The same program compiled for the GMW target, pruning on (Goldschmidt divider).
-line format: `112 4 2 i0.0.4;x1.0.5;x3.2.6;x0.4.7;x3.7.8;x2.7.9;x3.7.10;a2.8.11;a2.11.12;a6.11.13;a0.11.14;a5.11.15;a1.11.16;x12.2.17;x13.3.18;x14.0.19;x15.1.20;x17.7.21;x18.7.22;x21.7.23;x22.21.24;a18.23.25;a20.23.26;a16.23.27;a17.24.28;a18.24.29;a19.24.30;a20.24.31;a16.24.32;a28.25.34;a30.26.36;a32.32.38;x28.25.33;x30.26.35;x31.27.37;a37.27.41;a36.37.43;x33.7.39;x34.29.40;x36.37.42;x32.38.44;x39.7.45;x40.7.46;x27.41.47;a42.45.48;a32.47.51;x46.39.49;x47.32.50;a35.49.52;a42.49.53;a43.50.55;x43.50.54;x51.44.56;a52.48.57;a54.45.58;a54.49.59;x55.56.60;a60.45.62;x53.58.61;a61.58.63;a57.61.65;x57.61.64;x59.62.66;a64.2.68;a64.3.69;x58.63.67;x64.7.70;x64.7.71;x67.66.72;x68.7.73;x64.70.74;a0.73.77;x65.72.75;x0.73.76;a75.2.78;x75.7.79;x75.64.80;x76.7.81;x77.76.82;a81.9.87;x69.78.83;x79.64.84;x75.80.85;x81.9.86;x83.7.88;x87.86.89;a1.88.91;x1.88.90;a90.82.92;x90.82.93;a93.10.96;x91.92.94;x93.10.95;a95.89.98;x7.94.97;x96.98.99;x7.99.100;x100.7.101;a74.101.102;a85.101.103;x102.64.104;x103.75.105;x104.71.106;x105.84.107;a106.97.108;a107.97.109;x108.104.110;x109.105.111` -/
+line format: `118 4 2 i0.0.4;x1.0.5;x3.2.6;x0.4.7;x3.7.8;x2.7.9;x3.7.10;a2.8.11;a2.11.12;a6.11.13;a0.11.14;a5.11.15;a1.11.16;x12.2.17;x13.3.18;x14.0.19;x15.1.20;x17.7.21;x18.7.22;x21.7.23;x22.21.24;a18.23.25;a20.23.26;a16.23.27;a17.24.28;a18.24.29;a19.24.30;a20.24.31;a16.24.32;a28.25.34;a30.26.36;a32.32.38;x28.25.33;x30.26.35;x31.27.37;a37.27.41;a36.37.43;x33.7.39;x34.29.40;x36.37.42;x32.38.44;x39.7.45;x40.7.46;x27.41.47;a42.45.48;a32.47.51;x46.39.49;x47.32.50;a35.49.52;a42.49.53;a43.50.55;x43.50.54;x51.44.56;a52.48.57;a54.45.58;a54.49.59;x55.56.60;a60.45.62;x53.58.61;a61.58.63;a57.61.65;x57.61.64;x59.62.66;a64.2.68;a64.3.69;x58.63.67;x64.7.70;x64.7.71;x67.66.72;x68.7.73;x64.70.74;a0.73.77;x65.72.75;x0.73.76;a75.2.78;a75.3.79;x75.7.80;x75.64.81;x76.7.82;x77.76.83;a69.78.85;a82.9.89;x69.78.84;x80.64.86;x75.81.87;x82.9.88;x84.7.90;x85.79.91;x89.88.92;a1.90.94;x1.90.93;x91.7.95;a95.94.97;a95.93.98;x93.83.96;a96.10.100;a98.83.101;x96.10.99;a99.92.102;x97.101.103;x100.102.104;x7.103.105;x7.104.106;x106.7.107;a74.107.108;a87.107.109;x108.64.110;x109.75.111;x110.71.112;x111.86.113;a112.105.114;a113.105.115;x114.110.116;x115.111.117` -/
 def witnessGmw : Circuit :=
-  { numWires := 112, nIn := 4, nOut := 2,
+  { numWires := 118, nIn := 4, nOut := 2,
     gates := [
       ⟨.inv, 0, 0, 4⟩, ⟨.xor, 1, 0, 5⟩, ⟨.xor, 3, 2, 6⟩, ⟨.xor, 0, 4, 7⟩, ⟨.xor, 3, 7, 8⟩,
       ⟨.xor, 2, 7, 9⟩, ⟨.xor, 3, 7, 10⟩, ⟨.and, 2, 8, 11⟩, ⟨.and, 2, 11, 12⟩, ⟨.and, 6, 11, 13⟩,
@@ -322,29 +323,32 @@ def witnessGmw : Circuit :=
       ⟨.and, 57, 61, 65⟩, ⟨.xor, 57, 61, 64⟩, ⟨.xor, 59, 62, 66⟩, ⟨.and, 64, 2, 68⟩, ⟨.and, 64, 3, 69⟩,
       ⟨.xor, 58, 63, 67⟩, ⟨.xor, 64, 7, 70⟩, ⟨.xor, 64, 7, 71⟩, ⟨.xor, 67, 66, 72⟩, ⟨.xor, 68, 7, 73⟩,
       ⟨.xor, 64, 70, 74⟩, ⟨.and, 0, 73, 77⟩, ⟨.xor, 65, 72, 75⟩, ⟨.xor, 0, 73, 76⟩, ⟨.and, 75, 2, 78⟩,
-      ⟨.xor, 75, 7, 79⟩, ⟨.xor, 75, 64, 80⟩, ⟨.xor, 76, 7, 81⟩, ⟨.xor, 77, 76, 82⟩, ⟨.and, 81, 9, 87⟩,
-      ⟨.xor, 69, 78, 83⟩, ⟨.xor, 79, 64, 84⟩, ⟨.xor, 75, 80, 85⟩, ⟨.xor, 81, 9, 86⟩, ⟨.xor, 83, 7, 88⟩,
-      ⟨.xor, 87, 86, 89⟩, ⟨.and, 1, 88, 91⟩, ⟨.xor, 1, 88, 90⟩, ⟨.and, 90, 82, 92⟩, ⟨.xor, 90, 82, 93⟩,
-      ⟨.and, 93, 10, 96⟩, ⟨.xor, 91, 92, 94⟩, ⟨.xor, 93, 10, 95⟩, ⟨.and, 95, 89, 98⟩, ⟨.xor, 7, 94, 97⟩,
-      ⟨.xor, 96, 98, 99⟩, ⟨.xor, 7, 99, 100⟩, ⟨.xor, 100, 7, 101⟩, ⟨.and, 74, 101, 102⟩, ⟨.and, 85, 101, 103⟩,
-      ⟨.xor, 102, 64, 104⟩, ⟨.xor, 103, 75, 105⟩, ⟨.xor, 104, 71, 106⟩, ⟨.xor, 105, 84, 107⟩, ⟨.and, 106, 97, 108⟩,
-      ⟨.and, 107, 97, 109⟩, ⟨.xor, 108, 104, 110⟩, ⟨.xor, 109, 105, 111⟩] }
+      ⟨.and, 75, 3, 79⟩, ⟨.xor, 75, 7, 80⟩, ⟨.xor, 75, 64, 81⟩, ⟨.xor, 76, 7, 82⟩, ⟨.xor, 77, 76, 83⟩,
+      ⟨.and, 69, 78, 85⟩, ⟨.and, 82, 9, 89⟩, ⟨.xor, 69, 78, 84⟩, ⟨.xor, 80, 64, 86⟩, ⟨.xor, 75, 81, 87⟩,
+      ⟨.xor, 82, 9, 88⟩, ⟨.xor, 84, 7, 90⟩, ⟨.xor, 85, 79, 91⟩, ⟨.xor, 89, 88, 92⟩, ⟨.and, 1, 90, 94⟩,
+      ⟨.xor, 1, 90, 93⟩, ⟨.xor, 91, 7, 95⟩, ⟨.and, 95, 94, 97⟩, ⟨.and, 95, 93, 98⟩, ⟨.xor, 93, 83, 96⟩,
+      ⟨.and, 96, 10, 100⟩, ⟨.and, 98, 83, 101⟩, ⟨.xor, 96, 10, 99⟩, ⟨.and, 99, 92, 102⟩, ⟨.xor, 97, 101, 103⟩,
+      ⟨.xor, 100, 102, 104⟩, ⟨.xor, 7, 103, 105⟩, ⟨.xor, 7, 104, 106⟩, ⟨.xor, 106, 7, 107⟩, ⟨.and, 74, 107, 108⟩,
+      ⟨.and, 87, 107, 109⟩, ⟨.xor, 108, 64, 110⟩, ⟨.xor, 109, 75, 111⟩, ⟨.xor, 110, 71, 112⟩, ⟨.xor, 111, 86, 113⟩,
+      ⟨.and, 112, 105, 114⟩, ⟨.and, 113, 105, 115⟩, ⟨.xor, 114, 110, 116⟩, ⟨.xor, 115, 111, 117⟩] }
 
-/-- **Negation witness** for "Yao and GMW targets give the same function":
-the two circuits above, both produced by the real compiler from
-`func main(a, b uint2) uint2 { return a / b }`, differ on a = 0, b = 0
-(Yao long divider: 3, GMW Goldschmidt divider: 1).  The harness re-derives
-both circuits on every run (fixed corpus program `udiv2`) and replays the
-input on `circuit.Circuit.Compute`.
+/-- **Division by zero is the one remaining difference between the targets.**
+The two circuits above, both produced by the real compiler from
+`func main(a, b uint2) uint2 { return a / b }`, differ on a = 0, b = 0 (Yao
+long divider: all ones = 3, GMW Goldschmidt divider: 1).  The statement of C09
+quantifies over every input of the compiled circuit, so read literally this is
+a counterexample; but `a / 0` has no defined meaning in MPCL (Go panics), so
+no *meaning* of a program changes.  It is kept as a narrow known finding
+(`C09-division-by-zero-differs-across-targets`, matched only when the
+harness's divisor probe shows a zero divisor on every differing input).  The
+harness re-derives both circuits on every run (fixed corpus program `udiv2`)
+and replays the input on `circuit.Circuit.Compute`.
 
-The stronger instance of the same defect – a wrong quotient for a NON-zero
-divisor, `uint7` 127/13 = 11 under GMW (9 under Yao) – needs the 3405-gate
-GMW divider of width 7 (no narrower width has one; widths 2..6 and 8 are
-exact for b ≠ 0); kernel evaluation of that circuit in this store model does
-not terminate in reasonable time, so it is an EXECUTED check, not a theorem:
-on every run the compiled Lean model (`drv_c09`) evaluates the two real
-width-7 circuits on a = 127, b = 13 next to `Circuit.Compute` (op line
-`fixed:udiv7|witness/127-13`, evidence `coverage.inexact_witness_executed`). -/
+History: before 776d360 the GMW divider was also inexact for non-zero
+divisors (`uint7` 127/13 = 11 rem 112); that is fixed – the executed check
+`fixed:udiv7|witness/127-13` now shows equal results and the uint7 probe
+counts 0 wrong pairs with b ≠ 0 – as are the undriven result wires (90ed06e)
+and the operand-width panic (dcb521a). -/
 theorem C09_target_equivalence_fails :
     witnessYao.compute [false, false, false, false] ≠ witnessGmw.compute [false, false, false, false] := by
   decide +kernel
